@@ -148,6 +148,7 @@ def run(prop, tier, seed, replay):
     root = C.scratch_root()
     try:
         with C.Workers(1):
+            scale_count = 0
             for ci in range(n_cases):
                 config, cfgkw, cosmology = make_config(rng)
                 field = G.make_field(rng, num_patches=rng.choice([2, 3, 4]))
@@ -198,7 +199,9 @@ def run(prop, tier, seed, replay):
                             perm = inv          # counts'[inv[i], inv[j]] = counts[i, j]
                             detail = str(p.tolist())
                         elif tname == "scale":
-                            fac = rng.choice([4.0, 0.125, 3.0, 1e-9, 1e6])
+                            # tiny factors first (weights in physical units): every run evaluates at least one of them
+                            fac = [1e-9, 4.0, 3.0, 1e6, 0.125][scale_count % 5]
+                            scale_count += 1
                             which = rng.choice([0, 1, 3])
                             s2 = [dict(s, w=s["w"] * fac) if k == which else s for k, s in enumerate(samples)]
                             rtol = 0 if fac in (4.0, 0.125) else 1e-11
